@@ -22,6 +22,7 @@ CONSTANTS
   ChanTO = 35
   MaxLife = 3600
   Denied <- MCNoDenied
+  Vetoable = {}
   Toks = {"none", "even", "bogus", "c1", "c2"}
   ResvTO = 30
   QuotaDenied = {}
